@@ -444,6 +444,10 @@ class CursorClient(Client):
                 _, truth, expr = value
                 kind = s.get(('lastkind',), None)
                 s = s.drop(('lastkind',))
+                rs = s.get(('retsnapval',))
+                if rs is not None and isinstance(expr, ast.Call):
+                    # the callee returns the position it found the cursor at (and may have stepped): a saved position
+                    return [s.drop(('retsnapval',)).set(('snap', name), rs)]
                 if not any(isinstance(n, ast.Name) and n.id in self.cursors for n in ast.walk(expr)):
                     return [s]        # value unrelated to any cursor: no carrier facts (keeps the state set small)
                 s = s.set(('bool', name), truth)
@@ -980,11 +984,16 @@ class CursorClient(Client):
     TOKENIZER_MODULES = ('emmet.abbreviation.tokenizer', 'emmet.css_abbreviation.tokenizer')
 
     def _span_forwarder(self, g):
-        """create_literal-like helper: parameters (.., start=None, end=None) defaulting to scanner.start / scanner.pos"""
+        """create_literal-like helper: parameters (.., start=None, end=None) defaulting to <cursor>.start / <cursor>.pos
+        (recognised on the normal form, where `if p is None: p = d` and `p = d if p is None else p` coincide)"""
         if g.module.name not in self.TOKENIZER_MODULES or 'start' not in g.params or 'end' not in g.params:
             return False
-        srcs = [src_of(st) for st in g.node.body]
-        return any(x.startswith('if start is None:') and '.start' in x for x in srcs) and any(x.startswith('if end is None:') and '.pos' in x for x in srcs)
+        from . import norm
+        from .pattern import find_stmt
+        n = norm.nf(self.p, g, inline=False)
+        a = find_stmt('start = $c.start if start is None else start', n)
+        b = find_stmt('end = $c.pos if end is None else end', n)
+        return len(a) == 1 and len(b) == 1
 
     def _start_ok(self, s, a):
         """(ok, why) for a start-of-span argument"""
